@@ -19,6 +19,7 @@ import uuid
 import logging
 import argparse
 import tempfile
+import ipaddress
 import contextlib
 import subprocess
 from typing import List, Tuple, Optional, Generator
@@ -164,6 +165,17 @@ def sign_csr(
         return run_openssl_command(command, timeout)
 
 
+def get_alt_name(cname: str) -> bytes:
+    """subjectAltName entry for a host: IP literals (IPv6 optionally bracketed, as
+    found in request targets) need an ``IP:`` entry, anything else is a ``DNS:`` name."""
+    host = cname[1:-1] if cname.startswith('[') and cname.endswith(']') else cname
+    try:
+        ipaddress.ip_address(host)
+    except ValueError:
+        return b'DNS:%s' % bytes_(cname)
+    return b'IP:%s' % bytes_(host)
+
+
 def get_ext_config(
         alt_subj_names: Optional[List[str]] = None,
         extended_key_usage: Optional[str] = None,
@@ -173,7 +185,7 @@ def get_ext_config(
     if alt_subj_names is not None and len(alt_subj_names) > 0:
         alt_names = []
         for cname in alt_subj_names:
-            alt_names.append(b'DNS:%s' % bytes_(cname))
+            alt_names.append(get_alt_name(cname))
         config += b'\nsubjectAltName=' + COMMA.join(alt_names)
     # Add extendedKeyUsage section
     if extended_key_usage is not None:
